@@ -4,8 +4,8 @@
 set -e
 cd "$(dirname "$0")"
 export GOFLAGS=-mod=mod GOPROXY=off GOSUMDB=off GOTOOLCHAIN=local
-( cd lean && lake build )
 mkdir -p go/.build evidence replays
-if [ -x go/gen.sh ]; then ( cd go && ./gen.sh "${VERIF_REPO:-/repo}" ); fi
+tools/gen.sh "${VERIF_REPO:-/repo}"
+( cd lean && lake build )
 ( cd go && go build -o .build/vcheck-setup ./cmd/vcheck )
 echo setup ok
